@@ -223,6 +223,11 @@ class GenerateWasmVisitor(Visitor.DefaultVisitor):
 
         # Check if function is exported - for now assume yes
 
+        # Every function body needs an entry in the function section, which
+        # in turn references the signature in the type section
+        typeIndex = ctx.Module.AddFunctionType(functionType)
+        ctx.Module.AddFunction(typeIndex)
+
         c = ctx.Code
 
         # We create locals for every register we have
